@@ -251,7 +251,7 @@ fn run_server(chunk_cfg: u32, pieces: &[&[u8]]) -> Vec<String> {
     let mut cfg = ServerSessionConfig::new(); cfg.chunk_size = chunk_cfg;
     let (mut sess, init) = match guard("ServerSession::new", || ServerSession::new(cfg)) { Ok(Ok(x)) => x, Ok(Err(e)) => { tr.push(format!("ERR new: {}", e)); return tr } Err(e) => { tr.push(e); return tr } };
     let mut dec = OutDec::new();
-    let mut absorb = |tr: &mut Vec<String>, dec: &mut OutDec, rs: Vec<ServerSessionResult>, pending: &mut Vec<u32>| -> bool {
+    let absorb = |tr: &mut Vec<String>, dec: &mut OutDec, rs: Vec<ServerSessionResult>, pending: &mut Vec<u32>| -> bool {
         for r in rs { match r {
             ServerSessionResult::OutboundResponse(p) => match dec.feed(&p.bytes) { Ok(v) => for x in v { if !x.is_ack() { tr.push(format!("OUT {}", x.kind())); } }, Err(e) => { tr.push(format!("UNDECODABLE {}", e)); return false } },
             ServerSessionResult::RaisedEvent(e) => { if let Some(id) = sreq_id(&e) { pending.push(id); } tr.push(format!("EV {}", sev(&e))); }
@@ -277,7 +277,7 @@ fn run_client(chunk_cfg: u32, publish: bool, pieces: &[&[u8]]) -> Vec<String> {
     let mut cfg = ClientSessionConfig::new(); cfg.chunk_size = chunk_cfg;
     let (mut sess, init) = match guard("ClientSession::new", || ClientSession::new(cfg)) { Ok(Ok(x)) => x, Ok(Err(e)) => { tr.push(format!("ERR new: {}", e)); return tr } Err(e) => { tr.push(e); return tr } };
     let mut dec = OutDec::new();
-    let mut absorb = |tr: &mut Vec<String>, dec: &mut OutDec, rs: Vec<ClientSessionResult>, accepted: &mut bool| -> bool {
+    let absorb = |tr: &mut Vec<String>, dec: &mut OutDec, rs: Vec<ClientSessionResult>, accepted: &mut bool| -> bool {
         for r in rs { match r {
             ClientSessionResult::OutboundResponse(p) => match dec.feed(&p.bytes) { Ok(v) => for x in v { if !x.is_ack() { tr.push(format!("OUT {}", x.kind())); } }, Err(e) => { tr.push(format!("UNDECODABLE {}", e)); return false } },
             ClientSessionResult::RaisedEvent(e) => { if e == ClientSessionEvent::ConnectionRequestAccepted { *accepted = true; } tr.push(format!("EV {}", cev(&e))); }
@@ -600,7 +600,789 @@ fn mode_c17(seed: u64) {
     }
 }
 
-//@@MODES@@
+// ================================================================ C18: everything the sessions emit stays decodable
+struct Rec { bytes: Vec<u8>, can_drop: bool, origin: String, allowed: Vec<u32>, media: Option<(u8, u32, u32, Vec<u8>)>, req_drop: bool }
+fn well_formed(m: &Msg) -> Result<(), String> {
+    let p = MessagePayload { timestamp: RtmpTimestamp::new(m.ts), type_id: m.ty, message_stream_id: m.msid, data: Bytes::from(m.data.clone()) };
+    match guard("to_rtmp_message", || p.to_rtmp_message())? { Ok(_) => Ok(()), Err(e) => Err(format!("{}", e)) }
+}
+fn c18_check(label: &str, recs: &[Rec], streams: &[u32], rng: &mut Rng) {
+    ctx(format!("c18 checking {}", label));
+    let hist = || recs.iter().enumerate().map(|(i, r)| format!("#{}:{}{}", i, r.origin, if r.can_drop { "[droppable]" } else { "" })).collect::<Vec<_>>().join(", ");
+    for (i, r) in recs.iter().enumerate() {
+        if r.bytes.is_empty() { witness(format!("[c18] {}: packet #{} ({}) is empty; history: {}", label, i, r.origin, hist())); }
+        if r.can_drop != r.req_drop { witness(format!("[c18] {}: packet #{} ({}) has can_be_dropped = {} but the application asked for {}; history: {}", label, i, r.origin, r.can_drop, r.req_drop, hist())); }
+    }
+    // (1) one reference decoder over the packets in order: every packet is exactly one message
+    let mut rd = RefDecoder::new(); let mut full: Vec<Msg> = vec![];
+    for (i, r) in recs.iter().enumerate() {
+        match rd.decode_all(&r.bytes) {
+            Ok(v) if v.len() == 1 => full.push(v.into_iter().next().unwrap()),
+            Ok(v) => witness(format!("[c18] {}: packet #{} ({}) decodes to {} messages instead of one (reference decoder, RTMP 5.3.1); history: {}", label, i, r.origin, v.len(), hist())),
+            Err(e) => witness(format!("[c18] {}: packet #{} ({}) is not decodable by a conformant peer that received every earlier packet: {} ; history: {}", label, i, r.origin, e, hist())),
+        }
+    }
+    let all: Vec<u8> = recs.iter().flat_map(|r| r.bytes.iter().cloned()).collect();
+    match RefDecoder::new().decode_all(&all) { Ok(v) if v == full => (), Ok(v) => witness(format!("[c18] {}: the concatenation decodes to {} messages, packet by packet to {}; history: {}", label, v.len(), full.len(), hist())), Err(e) => witness(format!("[c18] {}: concatenation not decodable: {}; history: {}", label, e, hist())) }
+    for (i, (r, m)) in recs.iter().zip(full.iter()).enumerate() {
+        if let Err(e) = well_formed(m) { witness(format!("[c18] {}: packet #{} ({}) carries a malformed message of type {}: {}; history: {}", label, i, r.origin, m.ty, e, hist())); }
+        let ok = match m.ty {
+            1 | 2 | 3 | 5 | 6 => m.msid == 0,
+            4 => m.msid == 0 || streams.contains(&m.msid),     // RTMP 6.2: user control SHOULD use message stream 0; the sessions use the stream concerned: tolerated
+            _ => match &r.media { Some((ty, msid, ts, data)) => m.ty == *ty && m.msid == *msid && m.ts == *ts && &m.data == data, None => r.allowed.contains(&m.msid) },
+        };
+        if !ok {
+            witness(format!("[c18] {}: packet #{} ({}) decodes to type {} on message stream {} timestamp {} length {}, expected {}; history: {}", label, i, r.origin, m.ty, m.msid, m.ts, m.data.len(),
+                match &r.media { Some((ty, msid, ts, d)) => format!("type {} on message stream {} timestamp {} with the {} bytes the application sent", ty, msid, ts, d.len()), None => format!("a message stream in {:?}", if m.ty <= 6 { vec![0u32] } else { r.allowed.clone() }) }, hist()));
+        }
+        if r.media.is_none() && r.can_drop { witness(format!("[c18] {}: packet #{} ({}) is marked droppable but is not media", label, i, r.origin)); }
+    }
+    // (2) drop subsets
+    let di: Vec<usize> = recs.iter().enumerate().filter(|(_, r)| r.can_drop).map(|(i, _)| i).collect();
+    let d = di.len();
+    if d > 60 { witness(format!("internal: {} droppable packets in {}", d, label)); }
+    let mut masks: Vec<u64> = vec![];
+    if d <= 10 { masks.extend(0..(1u64 << d)); }
+    else {
+        for i in 0..d { masks.push(1 << i); for j in i + 1..d { masks.push(1 << i | 1 << j); } }
+        for st in 0..=d - 6 { for m in 0..64u64 { masks.push(m << st); } }
+        for _ in 0..300 { let mut m = 0u64; for _ in 0..1 + rng.below(6) { m |= 1 << rng.below(d as u64); } masks.push(m); }
+        masks.push((1u64 << d) - 1);
+    }
+    for mask in masks {
+        let dropped: Vec<usize> = di.iter().enumerate().filter(|(j, _)| mask >> j & 1 == 1).map(|(_, &i)| i).collect();
+        let mut bytes = vec![]; let mut expect = vec![];
+        for (i, r) in recs.iter().enumerate() { if dropped.contains(&i) { continue; } bytes.extend_from_slice(&r.bytes); expect.push(full[i].clone()); }
+        let got = RefDecoder::new().decode_all(&bytes);
+        if got.as_ref().ok() != Some(&expect) {
+            let why = match &got { Err(e) => format!("is not decodable: {}", e), Ok(v) => { let i = (0..std::cmp::max(v.len(), expect.len())).find(|&i| v.get(i) != expect.get(i)).unwrap_or(0);
+                format!("decodes differently from message {} on: got {:?}, kept message was {:?}", i, v.get(i).map(|m| (m.ts, m.ty, m.msid, m.data.len())), expect.get(i).map(|m| (m.ts, m.ty, m.msid, m.data.len()))) } };
+            witness(format!("[c18] {}: with the droppable packets {:?} removed the rest {} ; history: {}", label, dropped, why, hist()));
+        }
+    }
+}
+#[derive(Clone, Copy, Debug)]
+struct Med { video: bool, which: usize, ts: u32, len: usize, dropp: bool }
+fn med(video: bool, which: usize, ts: u32, len: usize, dropp: bool) -> Med { Med { video, which, ts, len, dropp } }
+struct S18 { s: ServerSession, p: Peer, dec: OutDec, recs: Vec<Rec>, pending: Vec<u32>, label: String, last_out: Vec<Out> }
+impl S18 {
+    fn fail(&self, what: &str, e: String) -> ! {
+        // if the packets returned so far are already broken, say that (the reference decoder pinpoints it) instead of the follow-up failure
+        c18_check(&self.label, &self.recs, &(0..64).collect::<Vec<u32>>(), &mut Rng(1));
+        witness(format!("[c18] {}: {} failed: {} ; history so far: {}", self.label, what, e, self.recs.iter().map(|r| r.origin.clone()).collect::<Vec<_>>().join(", ")))
+    }
+    fn push(&mut self, origin: &str, pk: Packet, allowed: &[u32], media: Option<(u8, u32, u32, Vec<u8>)>, req_drop: bool) {
+        let fed = self.dec.feed(&pk.bytes);
+        self.recs.push(Rec { bytes: pk.bytes, can_drop: pk.can_be_dropped, origin: origin.to_string(), allowed: allowed.to_vec(), media, req_drop });
+        match fed {
+            Ok(v) => self.last_out.extend(v),
+            // the real deserializer (playing the peer) cannot follow any more: let the reference decoder say exactly where the stream broke
+            Err(e) => { self.fail(origin, format!("the crate's own ChunkDeserializer, fed every returned packet in order, fails at this packet: {}", e)) }
+        }
+    }
+    fn take(&mut self, origin: &str, rs: Vec<ServerSessionResult>, allowed: &[u32]) {
+        self.last_out.clear();
+        for r in rs { match r {
+            ServerSessionResult::OutboundResponse(pk) => self.push(origin, pk, allowed, None, false),
+            ServerSessionResult::RaisedEvent(e) => if let Some(id) = sreq_id(&e) { self.pending.push(id); },
+            _ => (),
+        } }
+    }
+    fn new(cs: u32, label: String) -> S18 {
+        ctx(format!("c18 {}", label));
+        let mut cfg = ServerSessionConfig::new(); cfg.chunk_size = cs;
+        let (s, init) = match guard("ServerSession::new", || ServerSession::new(cfg)) { Ok(Ok(x)) => x, Ok(Err(e)) => witness(format!("[c18] ServerSession::new(chunk_size {}) failed: {}", cs, e)), Err(e) => witness(format!("[c18] {}", e)) };
+        let mut x = S18 { s, p: Peer::new(), dec: OutDec::new(), recs: vec![], pending: vec![], label, last_out: vec![] };
+        x.take("constructor", init, &[0]); x
+    }
+    fn input(&mut self, origin: &str, bytes: Vec<u8>, allowed: &[u32]) {
+        match guard("handle_input", || self.s.handle_input(&bytes)) { Ok(Ok(rs)) => self.take(origin, rs, allowed), Ok(Err(e)) => self.fail(origin, format!("{}", e)), Err(e) => self.fail(origin, e) }
+    }
+    fn accept(&mut self, origin: &str, allowed: &[u32]) {
+        let id = match self.pending.pop() { Some(i) => i, None => self.fail(origin, "no request event was raised".into()) };
+        match guard("accept_request", || self.s.accept_request(id)) { Ok(Ok(rs)) => self.take(origin, rs, allowed), Ok(Err(e)) => self.fail(origin, format!("{}", e)), Err(e) => self.fail(origin, e) }
+    }
+    fn reject(&mut self, origin: &str, allowed: &[u32]) {
+        let id = match self.pending.pop() { Some(i) => i, None => self.fail(origin, "no request event was raised".into()) };
+        match guard("reject_request", || self.s.reject_request(id, "NetStream.Play.Failed", "no")) { Ok(Ok(rs)) => self.take(origin, rs, allowed), Ok(Err(e)) => self.fail(origin, format!("{}", e)), Err(e) => self.fail(origin, e) }
+    }
+    fn create_stream(&mut self, tx: f64) -> u32 {
+        let b = self.p.cmd("createStream", tx, A::Null, &[], 0);
+        self.input("createStream result", b, &[0]);
+        for o in &self.last_out { if let Some((_, _, args)) = o.cmd("_result") { if let Some(Amf0Value::Number(n)) = args.get(0) { return *n as u32; } } }
+        self.fail("createStream", "no _result carrying a stream id came back".into())
+    }
+    fn media(&mut self, sid: u32, m: Med, salt: u8) {
+        let d = payload(m.len, salt);
+        let origin = format!("{}(stream {}, ts {}, {} bytes, can_be_dropped {})", if m.video { "send_video_data" } else { "send_audio_data" }, sid, m.ts, m.len, m.dropp);
+        let r = guard(&origin, || if m.video { self.s.send_video_data(sid, Bytes::from(d.clone()), RtmpTimestamp::new(m.ts), m.dropp) } else { self.s.send_audio_data(sid, Bytes::from(d.clone()), RtmpTimestamp::new(m.ts), m.dropp) });
+        match r { Ok(Ok(pk)) => self.push(&origin, pk, &[sid], Some((if m.video { 9 } else { 8 }, sid, m.ts, d)), m.dropp), Ok(Err(e)) => self.fail(&origin, format!("{}", e)), Err(e) => self.fail(&origin, e) }
+    }
+    fn pkt<E: std::fmt::Display>(&mut self, origin: &str, r: Result<Result<Packet, E>, String>, allowed: &[u32]) {
+        match r { Ok(Ok(pk)) => self.push(origin, pk, allowed, None, false), Ok(Err(e)) => self.fail(origin, format!("{}", e)), Err(e) => self.fail(origin, e) }
+    }
+}
+fn full_metadata() -> StreamMetadata {
+    let mut m = StreamMetadata::new();
+    m.video_width = Some(1920); m.video_height = Some(1080); m.video_codec_id = Some(7); m.video_frame_rate = Some(30.0); m.video_bitrate_kbps = Some(3000);
+    m.audio_codec_id = Some(10); m.audio_bitrate_kbps = Some(128); m.audio_sample_rate = Some(44100); m.audio_channels = Some(2); m.audio_is_stereo = Some(true); m.encoder = Some("enc".to_string());
+    m
+}
+fn c18_server(cs: u32, ack_window: Option<u32>, media: &[Med], name: &str, rng: &mut Rng) {
+    let mut x = S18::new(cs, format!("server session (chunk size {}{}), {}", cs, ack_window.map(|w| format!(", peer acknowledgement window {}", w)).unwrap_or_default(), name));
+    if let Some(w) = ack_window { let b = x.p.wack(w); x.input("peer WindowAcknowledgement", b, &[0]); }
+    let b = x.p.cmd("connect", 1.0, connect_obj("live", true), &[], 0); x.input("connect", b, &[0]);
+    x.accept("accept connect", &[0]);
+    let a = x.create_stream(2.0);
+    let b = x.p.cmd("publish", 3.0, A::Null, &[s("pubkey"), s("live")], a); x.input("publish", b, &[a]);
+    x.accept("accept publish", &[a]);
+    let p1 = x.create_stream(4.0);
+    let b = x.p.cmd("play", 5.0, A::Null, &[s("playkey")], p1); x.input("play", b, &[p1]);
+    x.accept("accept play", &[p1]);
+    let p2 = x.create_stream(6.0);
+    let b = x.p.cmd("play", 7.0, A::Null, &[s("playkey2")], p2); x.input("play", b, &[p2]);
+    x.accept("accept play 2", &[p2]);
+    let r = guard("send_metadata", || x.s.send_metadata(p1, &full_metadata())); x.pkt("send_metadata", r, &[p1]);
+    let sids = [p1, p2];
+    for (i, m) in media.iter().enumerate() {
+        x.media(sids[m.which % 2], *m, i as u8);
+        if i == media.len() / 2 {
+            let b = x.p.ping(0xCAFE); x.input("peer ping request", b, &[0]);
+            let r = guard("send_ping_request", || x.s.send_ping_request().map(|t| t.0)); x.pkt("send_ping_request", r, &[0]);
+            let b = x.p.audio(a, 5, payload(300, 1)); x.input("peer audio on the publishing stream", b, &[]);
+        }
+    }
+    let r = guard("finish_playing", || x.s.finish_playing(p1)); x.pkt("finish_playing", r, &[p1]);
+    let b = x.p.cmd("closeStream", 0.0, A::Null, &[A::N(p2 as f64)], p2); x.input("closeStream", b, &[]);
+    let b = x.p.cmd("deleteStream", 0.0, A::Null, &[A::N(a as f64)], 0); x.input("deleteStream", b, &[]);
+    let p3 = x.create_stream(8.0);
+    let b = x.p.cmd("play", 9.0, A::Null, &[s("k3")], p3); x.input("play", b, &[p3]);
+    x.reject("reject play", &[p3]);
+    let b = x.p.cmd("publish", 10.0, A::Null, &[s("k4"), s("bogus-mode")], p3); x.input("publish with an invalid mode (error response)", b, &[p3]);
+    let b = x.p.cmd("play", 11.0, A::Null, &[], p3); x.input("play without arguments (error response)", b, &[p3]);
+    x.media(p2, med(true, 1, 77, 10, false), 200);
+    let (label, recs) = (x.label.clone(), x.recs);
+    c18_check(&label, &recs, &[a, p1, p2, p3], rng);
+}
+struct C18 { c: ClientSession, p: Peer, dec: OutDec, recs: Vec<Rec>, label: String, last_out: Vec<Out>, events: Vec<String> }
+impl C18 {
+    fn fail(&self, what: &str, e: String) -> ! {
+        // if the packets returned so far are already broken, say that (the reference decoder pinpoints it) instead of the follow-up failure
+        c18_check(&self.label, &self.recs, &(0..64).collect::<Vec<u32>>(), &mut Rng(1));
+        witness(format!("[c18] {}: {} failed: {} ; history so far: {}", self.label, what, e, self.recs.iter().map(|r| r.origin.clone()).collect::<Vec<_>>().join(", ")))
+    }
+    fn push(&mut self, origin: &str, pk: Packet, allowed: &[u32], media: Option<(u8, u32, u32, Vec<u8>)>, req_drop: bool) {
+        let fed = self.dec.feed(&pk.bytes);
+        self.recs.push(Rec { bytes: pk.bytes, can_drop: pk.can_be_dropped, origin: origin.to_string(), allowed: allowed.to_vec(), media, req_drop });
+        match fed {
+            Ok(v) => self.last_out.extend(v),
+            // the real deserializer (playing the peer) cannot follow any more: let the reference decoder say exactly where the stream broke
+            Err(e) => { self.fail(origin, format!("the crate's own ChunkDeserializer, fed every returned packet in order, fails at this packet: {}", e)) }
+        }
+    }
+    fn take(&mut self, origin: &str, rs: Vec<ClientSessionResult>, allowed: &[u32]) {
+        self.last_out.clear(); self.events.clear();
+        for r in rs { match r { ClientSessionResult::OutboundResponse(pk) => self.push(origin, pk, allowed, None, false), ClientSessionResult::RaisedEvent(e) => self.events.push(cev(&e)), _ => () } }
+    }
+    fn input(&mut self, origin: &str, bytes: Vec<u8>, allowed: &[u32]) {
+        match guard("handle_input", || self.c.handle_input(&bytes)) { Ok(Ok(rs)) => self.take(origin, rs, allowed), Ok(Err(e)) => self.fail(origin, format!("{}", e)), Err(e) => self.fail(origin, e) }
+    }
+    fn one<E: std::fmt::Display>(&mut self, origin: &str, r: Result<Result<ClientSessionResult, E>, String>, allowed: &[u32], media: Option<(u8, u32, u32, Vec<u8>)>, req_drop: bool) {
+        match r { Ok(Ok(ClientSessionResult::OutboundResponse(pk))) => { self.last_out.clear(); self.push(origin, pk, allowed, media, req_drop) }, Ok(Ok(_)) => self.fail(origin, "no packet returned".into()), Ok(Err(e)) => self.fail(origin, format!("{}", e)), Err(e) => self.fail(origin, e) }
+    }
+    fn many<E: std::fmt::Display>(&mut self, origin: &str, r: Result<Result<Vec<ClientSessionResult>, E>, String>, allowed: &[u32]) {
+        match r { Ok(Ok(rs)) => self.take(origin, rs, allowed), Ok(Err(e)) => self.fail(origin, format!("{}", e)), Err(e) => self.fail(origin, e) }
+    }
+    fn last_tx(&self, name: &str) -> f64 { for o in &self.last_out { if let Some((tx, _, _)) = o.cmd(name) { return tx; } } self.fail(name, format!("no {} command was emitted", name)) }
+}
+fn c18_client(cs: u32, ack_window: Option<u32>, media: &[Med], name: &str, rng: &mut Rng) {
+    let label = format!("client session (chunk size {}{}), {}", cs, ack_window.map(|w| format!(", peer acknowledgement window {}", w)).unwrap_or_default(), name);
+    ctx(format!("c18 {}", label));
+    let mut cfg = ClientSessionConfig::new(); cfg.chunk_size = cs; cfg.tc_url = Some("rtmp://example.com/live".to_string());
+    let (c, init) = match guard("ClientSession::new", || ClientSession::new(cfg)) { Ok(Ok(x)) => x, Ok(Err(e)) => witness(format!("[c18] ClientSession::new(chunk_size {}) failed: {}", cs, e)), Err(e) => witness(format!("[c18] {}", e)) };
+    let mut x = C18 { c, p: Peer::new(), dec: OutDec::new(), recs: vec![], label, last_out: vec![], events: vec![] };
+    x.take("constructor", init, &[0]);
+    let r = guard("request_connection", || x.c.request_connection("live".to_string())); x.one("request_connection", r, &[0], None, false);
+    let tx = x.last_tx("connect");
+    if let Some(w) = ack_window { let b = x.p.wack(w); x.input("peer WindowAcknowledgement", b, &[0]); }
+    let b = x.p.cmd("_result", tx, o(&[("fmsVer", s("FMS/3,0,1,123"))]), &[status("NetConnection.Connect.Success")], 0); x.input("connect result", b, &[0]);
+    let r = guard("request_publishing", || x.c.request_publishing("pubkey".to_string(), PublishRequestType::Live)); x.one("request_publishing", r, &[0], None, false);
+    let tx = x.last_tx("createStream");
+    let sid = 5u32;
+    let b = x.p.cmd("_result", tx, A::Null, &[A::N(sid as f64)], 0); x.input("createStream result (publish command)", b, &[sid]);
+    let b = x.p.cmd("onStatus", 0.0, A::Null, &[status("NetStream.Publish.Start")], sid); x.input("onStatus Publish.Start", b, &[]);
+    if !x.events.iter().any(|e| e.contains("PublishRequestAccepted")) { x.fail("publish workflow", format!("no PublishRequestAccepted event, events {:?}", x.events)); }
+    let r = guard("publish_metadata", || x.c.publish_metadata(&full_metadata())); x.one("publish_metadata", r, &[sid], None, false);
+    for (i, m) in media.iter().enumerate() {
+        let d = payload(m.len, i as u8);
+        let origin = format!("{}(ts {}, {} bytes, can_be_dropped {})", if m.video { "publish_video_data" } else { "publish_audio_data" }, m.ts, m.len, m.dropp);
+        let r = guard(&origin, || if m.video { x.c.publish_video_data(Bytes::from(d.clone()), RtmpTimestamp::new(m.ts), m.dropp) } else { x.c.publish_audio_data(Bytes::from(d.clone()), RtmpTimestamp::new(m.ts), m.dropp) });
+        x.one(&origin, r, &[sid], Some((if m.video { 9 } else { 8 }, sid, m.ts, d)), m.dropp);
+        if i == media.len() / 2 {
+            let b = x.p.ping(0xBEEF); x.input("peer ping request", b, &[0]);
+            let r = guard("send_ping_request", || x.c.send_ping_request().map(|t| ClientSessionResult::OutboundResponse(t.0))); x.one("send_ping_request", r, &[0], None, false);
+            let b = x.p.raw(0x55, 0, 0, payload(400, 1)); x.input("peer padding", b, &[]);
+        }
+    }
+    let r = guard("stop_publishing", || x.c.stop_publishing()); x.many("stop_publishing (deleteStream)", r, &[sid, 0]);
+    let r = guard("request_playback", || x.c.request_playback("playkey".to_string())); x.one("request_playback", r, &[0], None, false);
+    let tx = x.last_tx("createStream");
+    let sid2 = 9u32;
+    let b = x.p.cmd("_result", tx, A::Null, &[A::N(sid2 as f64)], 0); x.input("createStream result (buffer length + play command)", b, &[sid2]);
+    let b = x.p.cmd("onStatus", 0.0, A::Null, &[status("NetStream.Play.Start")], sid2); x.input("onStatus Play.Start", b, &[]);
+    let b = x.p.video(sid2, 0, payload(300, 3)); x.input("peer video", b, &[]);
+    let r = guard("stop_playback", || x.c.stop_playback()); x.many("stop_playback (deleteStream)", r, &[sid2, 0]);
+    let (label, recs) = (x.label.clone(), x.recs);
+    c18_check(&label, &recs, &[sid, sid2], rng);
+}
+fn mode_c18(seed: u64) {
+    let mut rng = Rng(seed ^ 0xC18);
+    const T: u32 = 0xFFFFFF;
+    let scripted: Vec<(&str, Vec<Med>)> = vec![
+        ("live playback: sequence headers, key frame, consecutive droppable inter/audio frames", vec![
+            med(true, 0, 0, 30, false), med(false, 0, 0, 7, false), med(true, 0, 0, 500, false), med(true, 0, 40, 200, true), med(true, 0, 80, 200, true),
+            med(false, 0, 23, 90, true), med(false, 0, 46, 90, true), med(true, 0, 120, 260, true), med(false, 0, 69, 91, true), med(true, 0, 160, 500, false), med(false, 0, 92, 90, false)]),
+        ("timestamps at the extended-timestamp threshold: absolute 0xFFFFFF, deltas of exactly 0xFFFFFF", vec![
+            med(true, 0, T, 10, false), med(true, 0, T.wrapping_mul(2), 10, false), med(true, 0, T.wrapping_mul(3), 10, false), med(true, 0, T.wrapping_mul(4), 300, false),
+            med(false, 0, T - 1, 5, false), med(false, 0, T, 5, true), med(false, 0, T + 1, 5, true), med(false, 0, 2 * T + 1, 200, false), med(false, 0, 3 * T + 1, 200, false)]),
+        ("timestamps: 0xFFFFFE then +1, +0xFFFFFF; beyond 2^24; wrap past 2^32", vec![
+            med(true, 0, T - 1, 0, false), med(true, 0, T, 1, false), med(true, 0, 2 * T, 1, true), med(true, 0, 0x1000000 + 2 * T, 129, true), med(true, 0, 0xFFFFFFF0, 128, false), med(true, 0, 5, 128, true), med(true, 0, 45, 128, false),
+            med(false, 0, 0x1000000, 0, true), med(false, 0, 0x1000000, 0, true), med(false, 0, 0x7FFFFFFF, 1, false), med(false, 0, 0x80000000, 1, false)]),
+        ("two playing streams interleaved, droppable packets back to back", vec![
+            med(true, 0, 0, 100, false), med(true, 1, 0, 100, false), med(true, 0, 40, 100, true), med(true, 1, 40, 100, true), med(true, 1, 80, 100, true), med(true, 0, 80, 100, true), med(true, 0, 120, 100, false), med(true, 1, 120, 100, false),
+            med(false, 1, 10, 64, true), med(false, 1, 20, 64, true), med(false, 1, 30, 64, true), med(false, 0, 30, 64, false)]),
+        ("payload sizes 0, 1, 200, 5000, all droppable in a row", vec![
+            med(true, 0, 0, 0, true), med(true, 0, 10, 1, true), med(true, 0, 20, 200, true), med(true, 0, 30, 5000, true), med(true, 0, 40, 5000, true), med(true, 0, 50, 0, true), med(true, 0, 60, 1, false)]),
+    ];
+    for (name, media) in &scripted {
+        for &(cs, w) in &[(4096u32, None), (128, Some(200u32)), (50, None), (1, Some(1000))] {
+            c18_server(cs, w, media, name, &mut rng);
+            c18_client(cs, w, media, name, &mut rng);
+        }
+    }
+    for round in 0..14 {
+        let n = 6 + rng.below(12) as usize;
+        let mut tv = rng.pick(&[0u32, T - 40, 0xFFFFFFD0, 0x1000000]); let mut ta = tv;
+        let mut media = vec![];
+        for _ in 0..n {
+            let video = rng.below(2) == 0;
+            let step = rng.pick(&[0u32, 1, 33, 40, 40, T - 1, T, T + 1, 0x1000000]);
+            let t = if video { tv = tv.wrapping_add(step); tv } else { ta = ta.wrapping_add(step); ta };
+            media.push(med(video, rng.below(3) as usize / 2, t, rng.pick(&[0usize, 1, 2, 127, 128, 129, 200, 200, 1000]), rng.below(5) < 3));
+        }
+        let cs = rng.pick(&[1u32, 64, 128, 129, 4096, 65536]);
+        let w = rng.pick(&[None, Some(1u32), Some(300), Some(5000)]);
+        let name = format!("pseudo-random media run #{} (seed {}): {}", round, seed, media.iter().map(|m| format!("{}{}(ts={},len={}{})", if m.video { "V" } else { "A" }, m.which, m.ts, m.len, if m.dropp { ",drop" } else { "" })).collect::<Vec<_>>().join(" "));
+        c18_server(cs, w, &media, &name, &mut rng);
+        c18_client(cs, w, &media, &name, &mut rng);
+    }
+}
+
+// ================================================================ C09: server state machine
+struct SR { ev: Vec<ServerSessionEvent>, out: Vec<Out> }
+impl SR { fn show(&self) -> String { format!("events [{}], responses {}", self.ev.iter().map(|e| trunc(&sev(e), 200)).collect::<Vec<_>>().join(" | "), kinds(&self.out)) } }
+struct Srv { s: ServerSession, p: Peer, dec: OutDec, log: Vec<String>, t: u32 }
+impl Srv {
+    fn new() -> Srv {
+        let (s, init) = match guard("ServerSession::new", || ServerSession::new(ServerSessionConfig::new())) { Ok(Ok(x)) => x, Ok(Err(e)) => witness(format!("[c09] ServerSession::new failed: {}", e)), Err(e) => witness(format!("[c09] {}", e)) };
+        let mut x = Srv { s, p: Peer::new(), dec: OutDec::new(), log: vec![], t: 0 };
+        let _ = x.absorb("constructor", Ok(init)); x
+    }
+    fn bad(&self, what: String) -> ! { witness(format!("[c09] {} ; history: {}", what, self.log.join("; "))) }
+    fn absorb(&mut self, what: &str, r: Result<Vec<ServerSessionResult>, String>) -> Result<SR, String> {
+        let rs = r?;
+        let mut sr = SR { ev: vec![], out: vec![] };
+        for r in rs { match r {
+            ServerSessionResult::OutboundResponse(pk) => match self.dec.feed(&pk.bytes) { Ok(v) => sr.out.extend(v.into_iter().filter(|o| !o.is_ack())), Err(e) => self.bad(format!("after {}: {}", what, e)) },
+            ServerSessionResult::RaisedEvent(e) => sr.ev.push(e),
+            _ => (),
+        } }
+        Ok(sr)
+    }
+    fn feed(&mut self, what: &str, bytes: Vec<u8>) -> SR {
+        self.log.push(what.to_string()); ctx(format!("c09 {}", self.log.join("; ")));
+        let r = match guard("handle_input", || self.s.handle_input(&bytes)) { Ok(Ok(v)) => Ok(v), Ok(Err(e)) => Err(format!("{}", e)), Err(e) => Err(e) };
+        match self.absorb(what, r) { Ok(sr) => sr, Err(e) => self.bad(format!("peer message `{}` made handle_input fail: {}", what, e)) }
+    }
+    fn accept(&mut self, id: u32) -> Result<SR, String> {
+        self.log.push(format!("accept_request({})", id)); ctx(format!("c09 {}", self.log.join("; ")));
+        let r = match guard("accept_request", || self.s.accept_request(id)) { Ok(Ok(v)) => Ok(v), Ok(Err(e)) => Err(format!("{}", e)), Err(e) => self.bad(e) };
+        self.absorb("accept_request", r)
+    }
+    fn reject(&mut self, id: u32) -> Result<SR, String> {
+        self.log.push(format!("reject_request({})", id)); ctx(format!("c09 {}", self.log.join("; ")));
+        let r = match guard("reject_request", || self.s.reject_request(id, "NetStream.Failed", "rejected")) { Ok(Ok(v)) => Ok(v), Ok(Err(e)) => Err(format!("{}", e)), Err(e) => self.bad(e) };
+        self.absorb("reject_request", r)
+    }
+    fn connect(&mut self, app: &str, tx: f64) -> SR { let b = self.p.cmd("connect", tx, connect_obj(app, false), &[], 0); self.feed(&format!("connect(app {}, tx {})", app, tx), b) }
+    fn create(&mut self, tx: f64) -> SR { let b = self.p.cmd("createStream", tx, A::Null, &[], 0); self.feed(&format!("createStream(tx {})", tx), b) }
+    fn publish(&mut self, sid: u32, key: &str) -> SR { let b = self.p.cmd("publish", 0.0, A::Null, &[s(key), s("live")], sid); self.feed(&format!("publish({}) on stream {}", key, sid), b) }
+    fn play(&mut self, sid: u32, key: &str) -> SR { let b = self.p.cmd("play", 0.0, A::Null, &[s(key)], sid); self.feed(&format!("play({}) on stream {}", key, sid), b) }
+    fn close(&mut self, sid: u32) -> SR { let b = self.p.cmd("closeStream", 0.0, A::Null, &[A::N(sid as f64)], sid); self.feed(&format!("closeStream({})", sid), b) }
+    fn delete(&mut self, sid: u32) -> SR { let b = self.p.cmd("deleteStream", 0.0, A::Null, &[A::N(sid as f64)], 0); self.feed(&format!("deleteStream({})", sid), b) }
+    fn ping(&mut self, ts: u32) -> SR { let b = self.p.ping(ts); self.feed(&format!("ping request({})", ts), b) }
+    // kind 0 audio, 1 video, 2 @setDataFrame; returns (result, payload, timestamp)
+    fn media(&mut self, sid: u32, kind: u8) -> (SR, Vec<u8>, u32) {
+        self.t = self.t.wrapping_add(13); let t = self.t; let d = payload(1 + (t as usize % 40), t as u8);
+        let b = match kind { 0 => self.p.audio(sid, t, d.clone()), 1 => self.p.video(sid, t, d.clone()), _ => self.p.data(&[s("@setDataFrame"), s("onMetaData"), o(&[("width", A::N(t as f64))])], t, sid) };
+        (self.feed(&format!("{} on stream {}", ["audio", "video", "@setDataFrame"][kind as usize % 3], sid), b), d, t)
+    }
+    // the statement's media clause: exactly one event tagged (app, key) iff `publishing` is Some((app, key)), none otherwise
+    fn expect_media(&mut self, sid: u32, publishing: Option<(&str, &str)>) {
+        for kind in 0..3u8 {
+            let (r, d, t) = self.media(sid, kind);
+            if !r.out.is_empty() { self.bad(format!("media on stream {} produced responses: {}", sid, r.show())); }
+            match publishing {
+                None => if !r.ev.is_empty() { self.bad(format!("{} arrived on stream {} which has no currently accepted publish request, yet the session raised: {}", ["audio", "video", "@setDataFrame"][kind as usize], sid, r.show())); },
+                Some((app, key)) => {
+                    let ok = r.ev.len() == 1 && match &r.ev[0] {
+                        ServerSessionEvent::AudioDataReceived { app_name, stream_key, data, timestamp } => kind == 0 && app_name == app && stream_key == key && data[..] == d[..] && timestamp.value == t,
+                        ServerSessionEvent::VideoDataReceived { app_name, stream_key, data, timestamp } => kind == 1 && app_name == app && stream_key == key && data[..] == d[..] && timestamp.value == t,
+                        ServerSessionEvent::StreamMetadataChanged { app_name, stream_key, metadata } => kind == 2 && app_name == app && stream_key == key && metadata.video_width == Some(t),
+                        _ => false };
+                    if !ok { self.bad(format!("{} (timestamp {}, {} bytes) arrived on stream {} whose publish request (app {}, key {}) is accepted: expected exactly one matching event, got {}", ["audio", "video", "@setDataFrame"][kind as usize], t, d.len(), sid, app, key, r.show())); }
+                }
+            }
+        }
+    }
+    fn one_request(&mut self, r: &SR, what: &str) -> u32 {
+        if r.ev.len() != 1 || !r.out.is_empty() || sreq_id(&r.ev[0]).is_none() { self.bad(format!("{}: expected exactly one request event and no response, got {}", what, r.show())); }
+        sreq_id(&r.ev[0]).unwrap()
+    }
+    fn expect_error_response(&mut self, r: &SR, what: &str) {
+        if !r.ev.is_empty() || r.out.len() != 1 || r.out[0].cmd("_error").is_none() { self.bad(format!("{}: expected no event and exactly one _error response, got {}", what, r.show())); }
+    }
+    fn expect_refused(&mut self, r: Result<SR, String>, what: &str) {
+        if let Ok(sr) = r { self.bad(format!("{} was not refused: {}", what, sr.show())); }
+    }
+    fn new_stream(&mut self, tx: f64, issued: &mut HashSet<u32>) -> u32 {
+        let r = self.create(tx);
+        let sid = if r.ev.is_empty() && r.out.len() == 1 { match r.out[0].cmd("_result") { Some((t, _, args)) if t == tx => match args.get(0) { Some(Amf0Value::Number(n)) if *n >= 1.0 && n.fract() == 0.0 => Some(*n as u32), _ => None }, _ => None } } else { None };
+        let sid = match sid { Some(x) => x, None => self.bad(format!("createStream(tx {}): expected one _result under transaction id {} carrying the new stream id, got {}", tx, tx, r.show())) };
+        if r.out[0].msid != 0 { self.bad(format!("createStream result sent on message stream {}", r.out[0].msid)); }
+        if !issued.insert(sid) { self.bad(format!("createStream returned stream id {} which was issued before ({:?})", sid, issued)); }
+        sid
+    }
+    fn connected(app: &str) -> (Srv, HashSet<u32>) {
+        let mut x = Srv::new();
+        let r = x.connect(app, 1.0); let id = x.one_request(&r, "connect");
+        match x.accept(id) { Ok(sr) => if sr.out.iter().filter(|o| matches!(o.cmd("_result"), Some((t, _, _)) if t == 1.0)).count() != 1 || !sr.ev.is_empty() { x.bad(format!("accepting the connection request: expected one _result under transaction id 1, got {}", sr.show())) }, Err(e) => x.bad(format!("accept_request of a fresh connection request failed: {}", e)) }
+        let mut ids = HashSet::new(); ids.insert(id);
+        (x, ids)
+    }
+}
+fn finished(r: &SR, publish: bool, app: &str, key: &str) -> bool {
+    r.out.is_empty() && r.ev.len() == 1 && match &r.ev[0] {
+        ServerSessionEvent::PublishStreamFinished { app_name, stream_key } => publish && app_name == app && stream_key == key,
+        ServerSessionEvent::PlayStreamFinished { app_name, stream_key } => !publish && app_name == app && stream_key == key,
+        _ => false }
+}
+fn c09_scripted() {
+    // 1. publish / play before a connection request was accepted: error response, no request event; media ignored
+    for stage in 0..3 {
+        let mut x = Srv::new(); let mut sids = HashSet::new();
+        let sid = x.new_stream(1.0, &mut sids);
+        if stage >= 1 { let r = x.connect("live", 2.0); let id = x.one_request(&r, "connect"); if stage == 2 { match x.reject(id) { Ok(sr) => if sr.out.len() != 1 || sr.out[0].cmd("_error").is_none() { x.bad(format!("rejecting the connection request: expected one _error response, got {}", sr.show())) }, Err(e) => x.bad(format!("reject_request of a fresh id failed: {}", e)) } } }
+        let what = ["before any connect", "while the connection request is still pending", "after the connection request was rejected"][stage];
+        let r = x.publish(sid, "k"); x.expect_error_response(&r, &format!("publish {}", what));
+        let r = x.play(sid, "k"); x.expect_error_response(&r, &format!("play {}", what));
+        x.expect_media(sid, None);
+        let r = x.ping(42); if r.out.len() != 1 || r.out[0].ping_response() != Some(42) || !r.ev.is_empty() { x.bad(format!("ping request(42) {}: expected one ping response carrying 42, got {}", what, r.show())); }
+    }
+    // 2. ids: fresh, accepted or rejected exactly once, any other id refused without side effects
+    {
+        let (mut x, mut ids) = Srv::connected("live");
+        let first = *ids.iter().next().unwrap();
+        let r = x.accept(first); x.expect_refused(r, "accept_request of the already accepted connection request id");
+        let r = x.reject(first); x.expect_refused(r, "reject_request of the already accepted connection request id");
+        let r = x.accept(4711); x.expect_refused(r, "accept_request(4711), an id never issued");
+        let mut sids = HashSet::new();
+        let a = x.new_stream(2.0, &mut sids); let b = x.new_stream(3.0, &mut sids); let c = x.new_stream(4.0, &mut sids);
+        let r = x.play(a, "watch"); let p = x.one_request(&r, "play");
+        if !matches!(&r.ev[0], ServerSessionEvent::PlayStreamRequested { app_name, stream_key, stream_id, .. } if app_name == "live" && stream_key == "watch" && *stream_id == a) { x.bad(format!("play request event has wrong contents: {}", r.show())); }
+        let r = x.publish(b, "push"); let q = x.one_request(&r, "publish");
+        if !matches!(&r.ev[0], ServerSessionEvent::PublishStreamRequested { app_name, stream_key, .. } if app_name == "live" && stream_key == "push") { x.bad(format!("publish request event has wrong contents: {}", r.show())); }
+        if !ids.insert(p) { x.bad(format!("the play request got id {} which was issued before", p)); }
+        if !ids.insert(q) { x.bad(format!("the publish request got id {} although the ids {:?} were issued before (the play request with id {} is still pending)", q, ids, p)); }
+        x.expect_media(b, None);      // publish request pending, not accepted
+        match x.accept(q) { Ok(sr) => if !sr.ev.is_empty() || sr.out.is_empty() || sr.out.iter().any(|o| o.ty == 20 && o.msid != b) { x.bad(format!("accepting the publish request: {}", sr.show())) }, Err(e) => x.bad(format!("accept_request({}) of the pending publish request failed: {}", q, e)) }
+        x.expect_media(b, Some(("live", "push")));
+        x.expect_media(a, None);
+        match x.accept(p) { Ok(sr) => if !sr.ev.is_empty() || sr.out.is_empty() { x.bad(format!("accepting the play request: {}", sr.show())) }, Err(e) => x.bad(format!("accept_request({}) of the pending play request failed: {}", p, e)) }
+        x.expect_media(a, None);      // a playing stream never raises media events
+        x.expect_media(b, Some(("live", "push")));
+        for id in [p, q, first] { let r = x.accept(id); x.expect_refused(r, &format!("accept_request({}), an id that was already consumed,", id)); let r = x.reject(id); x.expect_refused(r, &format!("reject_request({}), an id that was already consumed,", id)); }
+        x.expect_media(b, Some(("live", "push")));
+        // later requests: fresh ids; the consumed ones stay invalid
+        let r = x.play(c, "late"); let s3 = x.one_request(&r, "play");
+        if !ids.insert(s3) { x.bad(format!("a later play request got id {} which was issued before ({:?})", s3, ids)); }
+        for id in [p, q] { let r = x.accept(id); x.expect_refused(r, &format!("accept_request({}), consumed before the later request {} was raised,", id, s3)); }
+        x.expect_media(c, None); x.expect_media(a, None); x.expect_media(b, Some(("live", "push")));
+        match x.reject(s3) { Ok(sr) => if !sr.ev.is_empty() || sr.out.len() != 1 || sr.out[0].cmd("_error").is_none() { x.bad(format!("rejecting the play request: expected one _error response, got {}", sr.show())) }, Err(e) => x.bad(format!("reject_request({}) of a pending request failed: {}", s3, e)) }
+        let r = x.accept(s3); x.expect_refused(r, "accept_request of a rejected request id");
+        let r = x.close(c); if !r.ev.is_empty() { x.bad(format!("closeStream of a stream whose play request was rejected raised {}", r.show())); }
+        // 3. finished events: exactly one per close / delete of a publishing or playing stream
+        let r = x.close(b); if !finished(&r, true, "live", "push") { x.bad(format!("closeStream({}) of the publishing stream: expected exactly one PublishStreamFinished(live, push), got {}", b, r.show())); }
+        x.expect_media(b, None);
+        let r = x.close(b); if !r.ev.is_empty() { x.bad(format!("second closeStream({}) raised {}", b, r.show())); }
+        let r = x.publish(b, "again"); let q2 = x.one_request(&r, "publish after closeStream");
+        if !ids.insert(q2) { x.bad(format!("the re-publish request got id {} which was issued before", q2)); }
+        if let Err(e) = x.accept(q2) { x.bad(format!("accept_request({}) failed: {}", q2, e)); }
+        x.expect_media(b, Some(("live", "again")));
+        let r = x.delete(b); if !finished(&r, true, "live", "again") { x.bad(format!("deleteStream({}) of the publishing stream: expected exactly one PublishStreamFinished(live, again), got {}", b, r.show())); }
+        x.expect_media(b, None);
+        let r = x.delete(b); if !r.ev.is_empty() { x.bad(format!("second deleteStream({}) raised {}", b, r.show())); }
+        x.expect_media(b, None);
+        let r = x.close(a); if !finished(&r, false, "live", "watch") { x.bad(format!("closeStream({}) of the playing stream: expected exactly one PlayStreamFinished(live, watch), got {}", a, r.show())); }
+        let r = x.close(a); if !r.ev.is_empty() { x.bad(format!("second closeStream({}) raised {}", a, r.show())); }
+        let r = x.play(a, "w2"); let p2 = x.one_request(&r, "play after closeStream"); if !ids.insert(p2) { x.bad(format!("id {} reused", p2)); }
+        if let Err(e) = x.accept(p2) { x.bad(format!("accept_request({}) failed: {}", p2, e)); }
+        let r = x.delete(a); if !finished(&r, false, "live", "w2") { x.bad(format!("deleteStream({}) of the playing stream: expected exactly one PlayStreamFinished(live, w2), got {}", a, r.show())); }
+        let r = x.delete(a); if !r.ev.is_empty() { x.bad(format!("second deleteStream({}) of a playing stream raised {}", a, r.show())); }
+        let d = x.new_stream(9.0, &mut sids);       // ids of deleted streams are not issued again
+        x.expect_media(d, None); x.expect_media(4242, None);
+        for ts in [0u32, 1, 0xFFFFFF, 0x1000000, 0x7FFFFFFF, 0x80000000, 0xFFFFFFFF] { let r = x.ping(ts); if r.out.len() != 1 || r.out[0].ping_response() != Some(ts) || !r.ev.is_empty() { x.bad(format!("ping request({}): expected exactly one ping response carrying {}, got {}", ts, ts, r.show())); } }
+    }
+}
+// pseudo-random histories against a model of the statement (ambiguous situations are not generated: a second connect, requests
+// on a stream that is not idle, close / delete of a stream with a pending request or before the connection is accepted)
+#[derive(Clone, Debug, PartialEq)]
+enum St { Created, Publishing(String), Playing(String) }
+#[derive(Clone, Debug)]
+enum Rq { Conn(String, f64), Pub(u32, String), Play(u32, String) }
+fn c09_walk(rng: &mut Rng, steps: usize) {
+    let mut x = Srv::new();
+    let mut app: Option<String> = None; let mut conn_pending = false;
+    let mut pending: Vec<(u32, Rq)> = vec![]; let mut consumed: Vec<u32> = vec![]; let mut ids: HashSet<u32> = HashSet::new();
+    let mut streams: Vec<(u32, St)> = vec![]; let mut sids: HashSet<u32> = HashSet::new(); let mut tx = 10.0;
+    for _ in 0..steps {
+        tx += 1.0;
+        let busy = |sid: u32, pending: &Vec<(u32, Rq)>| pending.iter().any(|(_, r)| matches!(r, Rq::Pub(s, _) | Rq::Play(s, _) if *s == sid));
+        match rng.below(14) {
+            0 => if app.is_none() && !conn_pending {
+                let name = rng.pick(&["live", "app2"]); let r = x.connect(name, tx); let id = x.one_request(&r, "connect");
+                if !matches!(&r.ev[0], ServerSessionEvent::ConnectionRequested { app_name, .. } if app_name == name) { x.bad(format!("connect({}): wrong event {}", name, r.show())); }
+                if !ids.insert(id) { x.bad(format!("the connection request got id {} which was issued before", id)); }
+                pending.push((id, Rq::Conn(name.to_string(), tx))); conn_pending = true;
+            },
+            1 => { let sid = x.new_stream(tx, &mut sids); streams.push((sid, St::Created)); }
+            2 | 3 => {
+                let idle: Vec<u32> = streams.iter().filter(|(s, st)| *st == St::Created && !busy(*s, &pending)).map(|(s, _)| *s).collect();
+                if idle.is_empty() { continue; }
+                let sid = rng.pick(&idle); let key = format!("key{}", tx); let is_pub = rng.below(2) == 0;
+                let r = if is_pub { x.publish(sid, &key) } else { x.play(sid, &key) };
+                match &app {
+                    None => x.expect_error_response(&r, &format!("{} before a connection request was accepted", if is_pub { "publish" } else { "play" })),
+                    Some(a) => {
+                        let id = x.one_request(&r, if is_pub { "publish" } else { "play" });
+                        let ok = match &r.ev[0] { ServerSessionEvent::PublishStreamRequested { app_name, stream_key, .. } => is_pub && app_name == a && *stream_key == key,
+                                                  ServerSessionEvent::PlayStreamRequested { app_name, stream_key, stream_id, .. } => !is_pub && app_name == a && *stream_key == key && *stream_id == sid, _ => false };
+                        if !ok { x.bad(format!("request event with wrong contents (expected app {}, key {}): {}", a, key, r.show())); }
+                        if !ids.insert(id) { x.bad(format!("request id {} was issued before (all ids so far {:?}, still pending {:?})", id, ids, pending.iter().map(|p| p.0).collect::<Vec<_>>())); }
+                        pending.push((id, if is_pub { Rq::Pub(sid, key) } else { Rq::Play(sid, key) }));
+                    }
+                }
+            }
+            4 | 5 | 6 => {
+                let accept = rng.below(3) != 0;
+                let sel = rng.below(10);
+                if sel < 6 && !pending.is_empty() {
+                    let (id, rq) = pending.remove(rng.below(pending.len() as u64) as usize);
+                    let r = if accept { x.accept(id) } else { x.reject(id) };
+                    let sr = match r { Ok(sr) => sr, Err(e) => x.bad(format!("{}_request({}) of the pending request {:?} failed: {}", if accept { "accept" } else { "reject" }, id, rq, e)) };
+                    if !sr.ev.is_empty() { x.bad(format!("answering request {} raised events: {}", id, sr.show())); }
+                    consumed.push(id);
+                    match (&rq, accept) {
+                        (Rq::Conn(name, t), true) => { if sr.out.iter().filter(|o| matches!(o.cmd("_result"), Some((tt, _, _)) if tt == *t)).count() != 1 { x.bad(format!("accepted connection request: expected a _result under transaction id {}, got {}", t, sr.show())); } app = Some(name.clone()); conn_pending = false; }
+                        (Rq::Conn(_, _), false) => { if sr.out.len() != 1 || sr.out[0].cmd("_error").is_none() { x.bad(format!("rejected connection request: expected one _error, got {}", sr.show())); } conn_pending = false; }
+                        (Rq::Pub(sid, key), true) => { if sr.out.is_empty() { x.bad("accepted publish request produced no response".into()); } for st in streams.iter_mut() { if st.0 == *sid { st.1 = St::Publishing(key.clone()); } } }
+                        (Rq::Play(sid, key), true) => { if sr.out.is_empty() { x.bad("accepted play request produced no response".into()); } for st in streams.iter_mut() { if st.0 == *sid { st.1 = St::Playing(key.clone()); } } }
+                        (_, false) => if sr.out.len() != 1 || sr.out[0].cmd("_error").is_none() { x.bad(format!("rejected request: expected one _error, got {}", sr.show())); },
+                    }
+                } else {
+                    let id = if sel < 8 && !consumed.is_empty() { rng.pick(&consumed) } else { let mut v = 1000 + rng.below(5) as u32; while ids.contains(&v) { v += 1; } v };
+                    let r = if accept { x.accept(id) } else { x.reject(id) };
+                    x.expect_refused(r, &format!("{}_request({}) (an id that is {})", if accept { "accept" } else { "reject" }, id, if consumed.contains(&id) { "already consumed" } else { "unknown" }));
+                }
+            }
+            7 | 8 | 9 => {
+                let mut cands: Vec<u32> = streams.iter().map(|s| s.0).collect(); cands.push(4000 + rng.below(3) as u32);
+                let sid = rng.pick(&cands);
+                let st = streams.iter().find(|s| s.0 == sid).map(|s| s.1.clone());
+                let a = app.clone();
+                match (st, a) { (Some(St::Publishing(k)), Some(a)) => x.expect_media(sid, Some((&a, &k))), _ => x.expect_media(sid, None) }
+            }
+            10 | 11 => if let Some(a) = app.clone() {
+                let cands: Vec<u32> = streams.iter().filter(|(s, _)| !busy(*s, &pending)).map(|(s, _)| *s).collect();
+                if cands.is_empty() { continue; }
+                let sid = rng.pick(&cands); let del = rng.below(2) == 0;
+                let st = streams.iter().find(|s| s.0 == sid).map(|s| s.1.clone()).unwrap();
+                let r = if del { x.delete(sid) } else { x.close(sid) };
+                let ok = match &st { St::Created => r.ev.is_empty(), St::Publishing(k) => finished(&r, true, &a, k), St::Playing(k) => finished(&r, false, &a, k) };
+                if !ok { x.bad(format!("{}Stream({}) of a stream in state {:?} (app {}): expected {}, got {}", if del { "delete" } else { "close" }, sid, st, a, if st == St::Created { "no event" } else { "exactly one matching finished event" }, r.show())); }
+                if del { streams.retain(|s| s.0 != sid); } else { for s in streams.iter_mut() { if s.0 == sid { s.1 = St::Created; } } }
+            },
+            12 => { let ts = rng.pick(&[0u32, 7, 0xFFFFFF, 0x1000000, 0xFFFFFFFF, 123456789]); let r = x.ping(ts); if r.out.len() != 1 || r.out[0].ping_response() != Some(ts) || !r.ev.is_empty() { x.bad(format!("ping request({}): expected exactly one ping response carrying {}, got {}", ts, ts, r.show())); } }
+            _ => {
+                // malformed argument lists / unknown commands: no request ids, no media or finished events
+                let sid = streams.first().map(|s| s.0).unwrap_or(1);
+                let (what, b) = match rng.below(5) {
+                    0 => ("publish without arguments", x.p.cmd("publish", tx, A::Null, &[], sid)), 1 => ("play without arguments", x.p.cmd("play", tx, A::Null, &[], sid)),
+                    2 => ("closeStream without arguments", x.p.cmd("closeStream", 0.0, A::Null, &[], sid)), 3 => ("deleteStream with a string argument", x.p.cmd("deleteStream", 0.0, A::Null, &[s("x")], 0)),
+                    _ => ("unknown command", x.p.cmd("fooBar", tx, A::Null, &[A::N(1.0)], sid)) };
+                let r = x.feed(what, b);
+                if r.ev.iter().any(|e| !matches!(e, ServerSessionEvent::UnhandleableAmf0Command { .. })) { x.bad(format!("{} raised {}", what, r.show())); }
+                if what.starts_with("p") && (r.out.len() != 1 || r.out[0].cmd("_error").is_none()) { x.bad(format!("{}: expected one _error response, got {}", what, r.show())); }
+            }
+        }
+    }
+}
+fn mode_c09(seed: u64) {
+    c09_scripted();
+    let mut rng = Rng(seed ^ 0xC09C09);
+    for _ in 0..300 { c09_walk(&mut rng, 70); }
+}
+
+// ================================================================ C10: client workflow
+struct CR { ev: Vec<ClientSessionEvent>, out: Vec<Out>, err: Option<String> }
+impl CR { fn show(&self) -> String { format!("{}events [{}], emitted {}", self.err.as_ref().map(|e| format!("Err({}), ", e)).unwrap_or_default(), self.ev.iter().map(|e| trunc(&cev(e), 200)).collect::<Vec<_>>().join(" | "), kinds(&self.out)) }
+          fn silent(&self) -> bool { self.ev.is_empty() && self.out.is_empty() } }
+struct Cli { c: ClientSession, p: Peer, dec: OutDec, log: Vec<String>, t: u32 }
+impl Cli {
+    fn new() -> Cli {
+        let (c, init) = match guard("ClientSession::new", || ClientSession::new(ClientSessionConfig::new())) { Ok(Ok(x)) => x, Ok(Err(e)) => witness(format!("[c10] ClientSession::new failed: {}", e)), Err(e) => witness(format!("[c10] {}", e)) };
+        let mut x = Cli { c, p: Peer::new(), dec: OutDec::new(), log: vec![], t: 0 };
+        let _ = x.absorb("constructor", Ok(init)); x
+    }
+    fn bad(&self, what: String) -> ! { witness(format!("[c10] {} ; history: {}", what, self.log.join("; "))) }
+    fn note(&mut self, what: &str) { self.log.push(what.to_string()); ctx(format!("c10 {}", self.log.join("; "))); }
+    fn absorb(&mut self, what: &str, r: Result<Vec<ClientSessionResult>, String>) -> CR {
+        let mut cr = CR { ev: vec![], out: vec![], err: None };
+        match r {
+            Err(e) => cr.err = Some(e),
+            Ok(rs) => for r in rs { match r {
+                ClientSessionResult::OutboundResponse(pk) => match self.dec.feed(&pk.bytes) { Ok(v) => cr.out.extend(v.into_iter().filter(|o| !o.is_ack())), Err(e) => self.bad(format!("after {}: {}", what, e)) },
+                ClientSessionResult::RaisedEvent(e) => cr.ev.push(e),
+                _ => (),
+            } },
+        }
+        cr
+    }
+    // an application call; a panic is a witness, an Err is returned in CR.err
+    fn call<E: std::fmt::Display>(&mut self, what: &str, f: impl FnOnce(&mut ClientSession) -> Result<Vec<ClientSessionResult>, E>) -> CR {
+        self.note(what);
+        let r = match guard(what, || f(&mut self.c)) { Ok(Ok(v)) => Ok(v), Ok(Err(e)) => Err(format!("{}", e)), Err(e) => self.bad(e) };
+        self.absorb(what, r)
+    }
+    fn feed(&mut self, what: &str, bytes: Vec<u8>) -> CR { self.call(what, |c| c.handle_input(&bytes)) }
+    fn req_conn(&mut self, app: &str) -> CR { let a = app.to_string(); self.call(&format!("request_connection({})", app), |c| c.request_connection(a).map(|r| vec![r])) }
+    fn req_play(&mut self, key: &str) -> CR { let k = key.to_string(); self.call(&format!("request_playback({})", key), |c| c.request_playback(k).map(|r| vec![r])) }
+    fn req_pub(&mut self, key: &str) -> CR { let k = key.to_string(); self.call(&format!("request_publishing({})", key), |c| c.request_publishing(k, PublishRequestType::Live).map(|r| vec![r])) }
+    fn stop_play(&mut self) -> CR { self.call("stop_playback", |c| c.stop_playback()) }
+    fn stop_pub(&mut self) -> CR { self.call("stop_publishing", |c| c.stop_publishing()) }
+    fn pub_media(&mut self, kind: u8) -> (CR, Vec<u8>, u32) {
+        self.t = self.t.wrapping_add(11); let t = self.t; let d = payload(1 + t as usize % 50, t as u8); let dd = d.clone();
+        let r = match kind { 0 => self.call("publish_audio_data", |c| c.publish_audio_data(Bytes::from(dd), RtmpTimestamp::new(t), false).map(|r| vec![r])),
+                             1 => self.call("publish_video_data", |c| c.publish_video_data(Bytes::from(dd), RtmpTimestamp::new(t), true).map(|r| vec![r])),
+                             _ => self.call("publish_metadata", |c| c.publish_metadata(&full_metadata()).map(|r| vec![r])) };
+        (r, d, t)
+    }
+    fn result(&mut self, tx: f64, args: &[A]) -> CR { let b = self.p.cmd("_result", tx, A::Null, args, 0); self.feed(&format!("_result(tx {}, {} args)", tx, args.len()), b) }
+    fn error(&mut self, tx: f64, desc: &str) -> CR { let b = self.p.cmd("_error", tx, A::Null, &[o(&[("level", s("error")), ("code", s("NetConnection.Connect.Rejected")), ("description", s(desc))])], 0); self.feed(&format!("_error(tx {})", tx), b) }
+    fn on_status(&mut self, code: &str, sid: u32) -> CR { let b = self.p.cmd("onStatus", 0.0, A::Null, &[status(code)], sid); self.feed(&format!("onStatus({}) on stream {}", code, sid), b) }
+    fn ping(&mut self, ts: u32) -> CR { let b = self.p.ping(ts); self.feed(&format!("ping request({})", ts), b) }
+    fn media_in(&mut self, sid: u32, kind: u8) -> (CR, Vec<u8>, u32) {
+        self.t = self.t.wrapping_add(13); let t = self.t; let d = payload(1 + (t as usize % 40), t as u8);
+        let b = match kind { 0 => self.p.audio(sid, t, d.clone()), 1 => self.p.video(sid, t, d.clone()), _ => self.p.data(&[s("onMetaData"), o(&[("width", A::N(t as f64))])], t, sid) };
+        (self.feed(&format!("{} on stream {}", ["audio", "video", "onMetaData"][kind as usize % 3], sid), b), d, t)
+    }
+    // media clause: exactly one event iff `active` (play requested or running and this is the active stream); otherwise no event (Ok or Err)
+    fn expect_media_in(&mut self, sid: u32, active: bool, kinds_: &[u8], why: &str) {
+        for &kind in kinds_ {
+            let (r, d, t) = self.media_in(sid, kind);
+            let name = ["audio", "video", "onMetaData"][kind as usize];
+            if !r.out.is_empty() { self.bad(format!("{} on stream {} made the session emit {}", name, sid, r.show())); }
+            if active {
+                let ok = r.err.is_none() && r.ev.len() == 1 && match &r.ev[0] {
+                    ClientSessionEvent::AudioDataReceived { data, timestamp } => kind == 0 && data[..] == d[..] && timestamp.value == t,
+                    ClientSessionEvent::VideoDataReceived { data, timestamp } => kind == 1 && data[..] == d[..] && timestamp.value == t,
+                    ClientSessionEvent::StreamMetadataReceived { metadata } => kind == 2 && metadata.video_width == Some(t),
+                    _ => false };
+                if !ok { self.bad(format!("{} (timestamp {}) on the active stream {} {}: expected exactly one matching event, got {}", name, t, sid, why, r.show())); }
+            } else if !r.ev.is_empty() { self.bad(format!("{} on stream {} {}: no media event may be raised, got {}", name, sid, why, r.show())); }
+        }
+    }
+    fn expect_refused(&mut self, r: CR, what: &str) { if r.err.is_none() || !r.silent() { self.bad(format!("{} must be refused with an error and without emitting anything, got {}", what, r.show())); } }
+    fn expect_nothing(&mut self, r: CR, what: &str) { if !r.silent() { self.bad(format!("{} must not emit or raise anything, got {}", what, r.show())); } }
+    fn expect_cmd(&mut self, r: &CR, name: &str, msid: &[u32], what: &str) -> (f64, Vec<Amf0Value>, Amf0Value) {
+        let cmds: Vec<&Out> = r.out.iter().filter(|o| o.ty == 20).collect();
+        if r.err.is_some() || cmds.len() != 1 || cmds[0].cmd(name).is_none() || !msid.contains(&cmds[0].msid) { self.bad(format!("{}: expected exactly one `{}` command on message stream {:?}, got {}", what, name, msid, r.show())); }
+        let (tx, obj, args) = cmds[0].cmd(name).unwrap(); (tx, args.clone(), obj.clone())
+    }
+    fn expect_unknown_tx(&mut self, r: &CR, tx: f64, what: &str) {
+        let ok = r.err.is_none() && r.out.is_empty() && r.ev.len() == 1 && matches!(&r.ev[0], ClientSessionEvent::UnknownTransactionResultReceived { transaction_id, .. } if *transaction_id == tx);
+        if !ok { self.bad(format!("{}: must be reported as a result for an unknown transaction ({}) and not applied (no bytes), got {}", what, tx, r.show())); }
+    }
+    fn expect_pong(&mut self, ts: u32) { let r = self.ping(ts); if r.err.is_some() || !r.ev.is_empty() || r.out.len() != 1 || r.out[0].ping_response() != Some(ts) { self.bad(format!("ping request({}): expected exactly one ping response carrying {}, got {}", ts, ts, r.show())); } }
+    fn fresh_tx(&mut self, tx: f64, used: &mut Vec<f64>, what: &str) { if used.contains(&tx) || tx < 1.0 { self.bad(format!("{} used transaction id {} (ids used before: {:?})", what, tx, used)); } used.push(tx); }
+    fn expect_delete(&mut self, r: &CR, sid: u32, what: &str) {
+        let (_, args, _) = self.expect_cmd(r, "deleteStream", &[sid, 0], what);
+        if r.out.len() != 1 || !r.ev.is_empty() || !matches!(args.get(0), Some(Amf0Value::Number(n)) if *n == sid as f64) { self.bad(format!("{}: expected exactly one deleteStream({}) and nothing else, got {}", what, sid, r.show())); }
+    }
+    // drives a fresh session to Connected; returns the transaction ids used
+    fn connected() -> (Cli, Vec<f64>) {
+        let mut x = Cli::new(); let mut used = vec![];
+        let r = x.req_conn("live"); let (tx, _, obj) = x.expect_cmd(&r, "connect", &[0], "request_connection"); x.fresh_tx(tx, &mut used, "connect");
+        if !camf(&obj).contains("app:Utf8String(\"live\")") { x.bad(format!("connect command does not carry the application name: {}", r.show())); }
+        let r = x.result(tx, &[]);
+        if r.err.is_some() || r.ev != vec![ClientSessionEvent::ConnectionRequestAccepted] || r.out.iter().any(|o| o.ty == 20) { x.bad(format!("connect result: expected exactly the accepted event, got {}", r.show())); }
+        (x, used)
+    }
+}
+fn c10_scripted() {
+    // 1. disconnected: only connect is permitted
+    {
+        let mut x = Cli::new(); let mut used = vec![];
+        let r = x.req_play("k"); x.expect_refused(r, "request_playback while disconnected");
+        let r = x.req_pub("k"); x.expect_refused(r, "request_publishing while disconnected");
+        for k in 0..3 { let (r, _, _) = x.pub_media(k); x.expect_refused(r, "publish_* while disconnected"); }
+        let r = x.stop_play(); x.expect_nothing(r, "stop_playback while disconnected"); let r = x.stop_pub(); x.expect_nothing(r, "stop_publishing while disconnected");
+        x.expect_media_in(1, false, &[0, 1, 2], "while disconnected");
+        x.expect_pong(7);
+        let r = x.result(77.0, &[A::N(1.0)]); x.expect_unknown_tx(&r, 77.0, "_result for a transaction id never used");
+        let r = x.req_play("k"); x.expect_refused(r, "request_playback while disconnected (after a forged result)");
+        // the refused calls must not have consumed anything: the connect command looks exactly like on a fresh session
+        let r = x.req_conn("live"); let (tx, _, _) = x.expect_cmd(&r, "connect", &[0], "request_connection"); x.fresh_tx(tx, &mut used, "connect");
+        let mut y = Cli::new(); let r2 = y.req_conn("live");
+        if kinds(&r.out) != kinds(&r2.out) { x.bad(format!("request_connection after refused calls emits {} but on a fresh session {}", kinds(&r.out), kinds(&r2.out))); }
+        // 2. connect rejected; the same transaction answered again must not be applied
+        let r = x.error(tx, "nope");
+        if r.err.is_some() || !r.out.is_empty() || r.ev != vec![(ClientSessionEvent::ConnectionRequestRejected { description: "nope".to_string() })] { x.bad(format!("connect _error: expected exactly the rejected event with the description, got {}", r.show())); }
+        let r = x.result(tx, &[]); x.expect_unknown_tx(&r, tx, "a late _result for the already rejected connect transaction");
+        let r = x.req_play("k"); x.expect_refused(r, "request_playback after the connection was rejected (and a late _result arrived)");
+        let r = x.error(tx, "again"); x.expect_unknown_tx(&r, tx, "a second _error for the already rejected connect transaction");
+        let r = x.req_conn("live"); let (tx2, _, _) = x.expect_cmd(&r, "connect", &[0], "request_connection after a rejection"); x.fresh_tx(tx2, &mut used, "second connect");
+        let r = x.result(tx2, &[]); if r.ev != vec![ClientSessionEvent::ConnectionRequestAccepted] { x.bad(format!("second connect result: {}", r.show())); }
+        let r = x.result(tx2, &[]); x.expect_unknown_tx(&r, tx2, "a duplicate connect _result");
+        let r = x.req_conn("live"); x.expect_refused(r, "request_connection while connected");
+    }
+    // 3. play workflow
+    {
+        let (mut x, mut used) = Cli::connected();
+        for k in 0..3 { let (r, _, _) = x.pub_media(k); x.expect_refused(r, "publish_* while connected and idle"); }
+        let r = x.stop_play(); x.expect_nothing(r, "stop_playback while idle");
+        x.expect_media_in(1, false, &[0, 1, 2], "while connected and idle");
+        // failed createStream, then a late result re-using the id
+        let r = x.req_play("key"); let (t1, _, _) = x.expect_cmd(&r, "createStream", &[0], "request_playback"); x.fresh_tx(t1, &mut used, "createStream");
+        let r = x.error(t1, "no"); if !r.silent() { x.bad(format!("createStream _error: nothing may be emitted, got {}", r.show())); }
+        let r = x.result(t1, &[A::N(9.0)]); x.expect_unknown_tx(&r, t1, "a late _result for the createStream transaction that already failed");
+        let r = x.stop_play(); x.expect_nothing(r, "stop_playback after a failed createStream (the session must be idle)");
+        x.expect_media_in(9, false, &[0, 1, 2], "after a failed createStream and a late result");
+        // successful play
+        let r = x.req_play("key2"); let (t2, _, _) = x.expect_cmd(&r, "createStream", &[0], "request_playback"); x.fresh_tx(t2, &mut used, "createStream");
+        let r = x.result(4242.0, &[A::N(3.0)]); x.expect_unknown_tx(&r, 4242.0, "_result for a forged transaction id while createStream is pending");
+        let r = x.result(t2, &[A::N(5.0)]); let (_, args, _) = x.expect_cmd(&r, "play", &[5], "createStream result");
+        if !r.ev.is_empty() || !matches!(args.get(0), Some(Amf0Value::Utf8String(k)) if k == "key2") { x.bad(format!("createStream result: expected a play command for key2 on the returned stream 5, got {}", r.show())); }
+        let r = x.result(t2, &[A::N(6.0)]); x.expect_unknown_tx(&r, t2, "a duplicate createStream _result");
+        let r = x.req_play("k"); x.expect_refused(r, "request_playback while play is requested"); let r = x.req_pub("k"); x.expect_refused(r, "request_publishing while play is requested");
+        let r = x.req_conn("live"); x.expect_refused(r, "request_connection while play is requested");
+        for k in 0..3 { let (r, _, _) = x.pub_media(k); x.expect_refused(r, "publish_* while play is requested"); }
+        x.expect_media_in(5, true, &[0, 1, 2], "while play is requested"); x.expect_media_in(6, false, &[0, 1, 2], "(not the active stream 5)");
+        let r = x.on_status("NetStream.Play.Start", 5); if r.err.is_some() || !r.out.is_empty() || r.ev != vec![ClientSessionEvent::PlaybackRequestAccepted] { x.bad(format!("onStatus(NetStream.Play.Start): expected exactly the accepted event, got {}", r.show())); }
+        let r = x.on_status("NetStream.Something.Else", 5); if r.ev != vec![(ClientSessionEvent::UnhandleableOnStatusCode { code: "NetStream.Something.Else".to_string() })] || !r.out.is_empty() { x.bad(format!("onStatus with an unknown code: {}", r.show())); }
+        x.expect_media_in(5, true, &[0, 1, 2], "while playing"); x.expect_media_in(6, false, &[0, 1, 2], "(not the active stream 5)"); x.expect_media_in(0, false, &[0, 1, 2], "(not the active stream 5)");
+        for ts in [0u32, 0xFFFFFF, 0x1000000, 0xFFFFFFFF] { x.expect_pong(ts); }
+        let r = x.stop_pub(); x.expect_nothing(r, "stop_publishing while playing");
+        x.expect_media_in(5, true, &[0], "after a refused stop_publishing");
+        let r = x.stop_play(); x.expect_delete(&r, 5, "stop_playback");
+        x.expect_media_in(5, false, &[2, 0, 1, 2], "after stop_playback"); x.expect_media_in(6, false, &[2], "after stop_playback");
+        let r = x.stop_play(); x.expect_nothing(r, "a second stop_playback");
+        let r = x.on_status("NetStream.Play.Start", 5); if !r.silent() { x.bad(format!("onStatus(NetStream.Play.Start) after stop_playback must not be applied, got {}", r.show())); }
+        x.expect_media_in(5, false, &[0, 2], "after stop_playback and a late Play.Start");
+        // back to connected and idle: publishing may be requested now
+        let r = x.req_pub("pk"); let (t3, _, _) = x.expect_cmd(&r, "createStream", &[0], "request_publishing after stop_playback"); x.fresh_tx(t3, &mut used, "createStream");
+        let r = x.result(t3, &[A::N(7.0)]); let (_, args, _) = x.expect_cmd(&r, "publish", &[7], "createStream result");
+        if !matches!((args.get(0), args.get(1)), (Some(Amf0Value::Utf8String(k)), Some(Amf0Value::Utf8String(m))) if k == "pk" && m == "live") { x.bad(format!("publish command arguments: {}", r.show())); }
+        for k in 0..3 { let (r, _, _) = x.pub_media(k); x.expect_refused(r, "publish_* while publishing is only requested"); }
+        let r = x.on_status("NetStream.Play.Start", 7); if !r.silent() { x.bad(format!("onStatus(NetStream.Play.Start) while publish is requested must not be applied, got {}", r.show())); }
+        x.expect_media_in(7, false, &[0, 1], "while publish is requested");
+        let r = x.on_status("NetStream.Publish.Start", 7); if r.err.is_some() || !r.out.is_empty() || r.ev != vec![ClientSessionEvent::PublishRequestAccepted] { x.bad(format!("onStatus(NetStream.Publish.Start): expected exactly the accepted event, got {}", r.show())); }
+        for k in 0..3u8 {
+            let (r, d, _) = x.pub_media(k);
+            let ok = r.err.is_none() && r.ev.is_empty() && r.out.len() == 1 && r.out[0].msid == 7 && match (&r.out[0].msg, k) { (RtmpMessage::AudioData { data }, 0) | (RtmpMessage::VideoData { data }, 1) => data[..] == d[..], (RtmpMessage::Amf0Data { values }, 2) => matches!(values.get(0), Some(Amf0Value::Utf8String(n)) if n == "@setDataFrame"), _ => false };
+            if !ok { x.bad(format!("publish_{} while publishing: expected one matching message on stream 7, got {}", ["audio_data", "video_data", "metadata"][k as usize], r.show())); }
+        }
+        x.expect_media_in(7, false, &[0, 1], "while publishing"); x.expect_media_in(8, false, &[0, 1, 2], "while publishing");
+        let r = x.req_play("k"); x.expect_refused(r, "request_playback while publishing"); let r = x.req_pub("k"); x.expect_refused(r, "request_publishing while publishing");
+        let r = x.stop_play(); x.expect_nothing(r, "stop_playback while publishing");
+        let (r, _, _) = x.pub_media(1); if r.err.is_some() || r.out.len() != 1 { x.bad(format!("publish_video_data after a refused stop_playback: {}", r.show())); }
+        x.expect_pong(99);
+        let r = x.stop_pub(); x.expect_delete(&r, 7, "stop_publishing");
+        for k in 0..3 { let (r, _, _) = x.pub_media(k); x.expect_refused(r, "publish_* after stop_publishing"); }
+        x.expect_media_in(7, false, &[0, 1, 2], "after stop_publishing");
+        let r = x.stop_pub(); x.expect_nothing(r, "a second stop_publishing");
+        let r = x.req_play("again"); let (t4, _, _) = x.expect_cmd(&r, "createStream", &[0], "request_playback after stop_publishing"); x.fresh_tx(t4, &mut used, "createStream");
+    }
+}
+// pseudo-random histories against a model of the statement.  Not generated (the statement does not settle them): a second
+// request while a connect / createStream is still unanswered, onMetaData on the active stream while publishing.
+#[derive(Clone, Debug, PartialEq)]
+enum M { Disc, ConnPending(f64), Connected, CreatePending(f64, bool, String), PlayReq(u32), Playing(u32), PubReq(u32), Publishing(u32) }
+fn c10_walk(rng: &mut Rng, steps: usize) {
+    let mut x = Cli::new(); let mut m = M::Disc; let mut used: Vec<f64> = vec![]; let mut dead: Vec<f64> = vec![]; let mut n = 0u32;
+    for _ in 0..steps {
+        n += 1;
+        let playing = match m { M::PlayReq(s) | M::Playing(s) => Some(s), _ => None };
+        match rng.below(16) {
+            0 => match m { M::Disc => { let r = x.req_conn("live"); let (tx, _, _) = x.expect_cmd(&r, "connect", &[0], "request_connection"); x.fresh_tx(tx, &mut used, "connect"); m = M::ConnPending(tx); }
+                           M::ConnPending(_) => (), _ => { let r = x.req_conn("live"); x.expect_refused(r, &format!("request_connection in state {:?}", m)); } },
+            1 | 2 => { let play = rng.below(2) == 0; let key = format!("k{}", n);
+                match m { M::Connected => { let r = if play { x.req_play(&key) } else { x.req_pub(&key) }; let (tx, _, _) = x.expect_cmd(&r, "createStream", &[0], "request_playback/publishing"); x.fresh_tx(tx, &mut used, "createStream"); m = M::CreatePending(tx, play, key); }
+                          M::CreatePending(..) => (), _ => { let r = if play { x.req_play(&key) } else { x.req_pub(&key) }; x.expect_refused(r, &format!("request_{} in state {:?}", if play { "playback" } else { "publishing" }, m)); } } }
+            3 => { let k = rng.below(3) as u8; let (r, d, _) = x.pub_media(k);
+                match m { M::Publishing(sid) => { let ok = r.err.is_none() && r.ev.is_empty() && r.out.len() == 1 && r.out[0].msid == sid && match (&r.out[0].msg, k) { (RtmpMessage::AudioData { data }, 0) | (RtmpMessage::VideoData { data }, 1) => data[..] == d[..], (RtmpMessage::Amf0Data { .. }, 2) => true, _ => false };
+                                                  if !ok { x.bad(format!("publish_* (kind {}) while publishing on stream {}: got {}", k, sid, r.show())); } }
+                          _ => x.expect_refused(r, &format!("publish_* in state {:?}", m)) } }
+            4 => { let r = x.stop_play(); match m { M::PlayReq(s) | M::Playing(s) => { x.expect_delete(&r, s, "stop_playback"); m = M::Connected; } _ => x.expect_nothing(r, &format!("stop_playback in state {:?}", m)) } }
+            5 => { let r = x.stop_pub(); match m { M::PubReq(s) | M::Publishing(s) => { x.expect_delete(&r, s, "stop_publishing"); m = M::Connected; } _ => x.expect_nothing(r, &format!("stop_publishing in state {:?}", m)) } }
+            6 | 7 => match m.clone() {   // the answer the session is waiting for
+                M::ConnPending(tx) => if rng.below(3) != 0 { let r = x.result(tx, &[]); if r.err.is_some() || r.ev != vec![ClientSessionEvent::ConnectionRequestAccepted] || r.out.iter().any(|o| o.ty == 20) { x.bad(format!("connect result: {}", r.show())); } m = M::Connected; dead.push(tx); }
+                                      else { let r = x.error(tx, "no"); if r.err.is_some() || !r.out.is_empty() || r.ev != vec![(ClientSessionEvent::ConnectionRequestRejected { description: "no".to_string() })] { x.bad(format!("connect _error: {}", r.show())); } m = M::Disc; dead.push(tx); },
+                M::CreatePending(tx, play, key) => if rng.below(4) != 0 {
+                        let sid = 1 + rng.below(6) as u32; let r = x.result(tx, &[A::N(sid as f64)]);
+                        let (_, args, _) = x.expect_cmd(&r, if play { "play" } else { "publish" }, &[sid], "createStream result");
+                        if !r.ev.is_empty() || !matches!(args.get(0), Some(Amf0Value::Utf8String(k)) if *k == key) { x.bad(format!("createStream result: expected a command for key {} on stream {}, got {}", key, sid, r.show())); }
+                        m = if play { M::PlayReq(sid) } else { M::PubReq(sid) }; dead.push(tx);
+                    } else { let r = x.error(tx, "no"); if !r.silent() { x.bad(format!("createStream _error: nothing may be emitted, got {}", r.show())); } m = M::Connected; dead.push(tx); },
+                M::PlayReq(s) => { let r = x.on_status("NetStream.Play.Start", s); if r.err.is_some() || !r.out.is_empty() || r.ev != vec![ClientSessionEvent::PlaybackRequestAccepted] { x.bad(format!("onStatus(Play.Start) while play is requested: {}", r.show())); } m = M::Playing(s); }
+                M::PubReq(s) => { let r = x.on_status("NetStream.Publish.Start", s); if r.err.is_some() || !r.out.is_empty() || r.ev != vec![ClientSessionEvent::PublishRequestAccepted] { x.bad(format!("onStatus(Publish.Start) while publish is requested: {}", r.show())); } m = M::Publishing(s); }
+                _ => (),
+            },
+            8 | 9 => {   // an answer nobody is waiting for: stale, duplicate or forged transaction id
+                let tx = if !dead.is_empty() && rng.below(3) != 0 { rng.pick(&dead) } else { 500.0 + rng.below(5) as f64 };
+                let r = if rng.below(2) == 0 { x.result(tx, &[A::N(1.0 + rng.below(6) as f64)]) } else { x.error(tx, "late") };
+                x.expect_unknown_tx(&r, tx, &format!("an answer for transaction {} in state {:?} (answered before: {:?})", tx, m, dead));
+            }
+            10 => {   // start status in a state that does not wait for it
+                let (code, waits) = if rng.below(2) == 0 { ("NetStream.Play.Start", matches!(m, M::PlayReq(_))) } else { ("NetStream.Publish.Start", matches!(m, M::PubReq(_))) };
+                if !waits { let r = x.on_status(code, 1); if !r.silent() { x.bad(format!("onStatus({}) in state {:?} must not be applied, got {}", code, m, r.show())); } }
+            }
+            11 | 12 | 13 => {
+                let sid = 1 + rng.below(7) as u32; let kind = rng.below(3) as u8;
+                if kind == 2 && matches!(m, M::PubReq(s) | M::Publishing(s) if s == sid) { continue; }
+                x.expect_media_in(sid, playing == Some(sid), &[kind], &format!("in state {:?}", m));
+            }
+            14 => x.expect_pong(rng.pick(&[0u32, 1, 0xFFFFFF, 0x1000000, 0xFFFFFFFF, 31337])),
+            _ => { let b = x.p.ack(n); let r = x.feed("acknowledgement", b); if r.err.is_some() || !r.out.is_empty() || r.ev != vec![(ClientSessionEvent::AcknowledgementReceived { bytes_received: n })] { x.bad(format!("acknowledgement({}): {}", n, r.show())); } }
+        }
+    }
+}
+fn mode_c10(seed: u64) {
+    c10_scripted();
+    let mut rng = Rng(seed ^ 0xC10C10);
+    for _ in 0..300 { c10_walk(&mut rng, 80); }
+}
+
 
 fn main() {
     let a: Vec<String> = std::env::args().collect();
